@@ -21,11 +21,19 @@ func runC12(e *Env) error {
 	params := []string{"p", "q", "r", "s"}
 	defaultsPool := []string{"'dq'", "7", "true", "'d' ~ 'x'"}
 	defaultOut := []string{"dq", "7", "true", "dx"}
+	// further kinds of default expression, used by the sampled part: bare words and operators are expressions too
+	moreDefaults := [][2]string{{"null", ""}, {"none", ""}, {"g", "G"}, {"1 == 1", "true"}, {"g ~ '!'", "G!"}, {"false", "false"}, {"-3", "-3"}, {"[1, 2]|length", "2"}, {"g|lower", "g"}, {"not g", "false"}, {"undefinedname", ""}}
+	useMore := false
 	runSig := func(arity int, defMask int, argc int, placement int, mn string) error {
 		var sig []string
+		dflt := make([][2]string, arity)
 		for i := 0; i < arity; i++ {
+			dflt[i] = [2]string{defaultsPool[i], defaultOut[i]}
+			if useMore && rg.Intn(2) == 0 {
+				dflt[i] = pick(rg, moreDefaults)
+			}
 			if defMask&(1<<i) != 0 {
-				sig = append(sig, params[i]+" = "+defaultsPool[i])
+				sig = append(sig, params[i]+" = "+dflt[i][0])
 			} else {
 				sig = append(sig, params[i])
 			}
@@ -60,7 +68,7 @@ func runC12(e *Env) error {
 			case i < argc:
 				want.WriteString("[" + argOut[i] + "]")
 			case defMask&(1<<i) != 0:
-				want.WriteString("[" + defaultOut[i] + "]")
+				want.WriteString("[" + dflt[i][1] + "]")
 			default:
 				want.WriteString("[]")
 			}
@@ -85,13 +93,16 @@ func runC12(e *Env) error {
 			"import":     "{% import 'lib' as L %}" + wrap(call("L."+mn)) + after,
 			"from":       "{% from 'lib' import " + mn + " %}" + wrap(call(mn)) + after,
 			"from-alias": "{% from 'lib' import " + mn + " as mm %}" + wrap(call("mm")) + after,
+			// the importing template has macros of its own under the same names: the module's macro is the library's
+			"import-namesake":     "{% macro " + mn + "() %}LOCAL{% endmacro %}{% macro sib(x) %}LOCALSIB{% endmacro %}{% import 'lib' as L %}" + wrap(call("L."+mn)) + after,
+			"from-other-namesake": "{% from 'lib2' import " + mn + " %}{% import 'lib' as L %}" + wrap(call("L."+mn)) + after,
 		}
 		if placement == 3 {
 			// inside another macro the module variable L is not visible by name lookup? it is: macros read the caller's variables
 		}
 		wantAll := want.String() + "|clean|G"
-		for _, route := range []string{"local", "self", "import", "from", "from-alias"} {
-			tpls := map[string]string{"main": routes[route], "lib": lib}
+		for _, route := range []string{"local", "self", "import", "from", "from-alias", "import-namesake", "from-other-namesake"} {
+			tpls := map[string]string{"main": routes[route], "lib": lib, "lib2": "{% macro " + mn + "() %}OTHERLIB{% endmacro %}"}
 			c := &Case{Templates: tpls, Main: "main", Ctx: map[string]any{"g": "G", "p": "OUTER-p", "q": "OUTER-q", "r": "OUTER-r", "s": "OUTER-s"}, FailAt: -1}
 			im, _, _, err := compareCase(e, c, "render-model-c12", "correspondence (Lean pipeline vs real engine) on macro programs")
 			if err != nil {
@@ -123,6 +134,7 @@ func runC12(e *Env) error {
 	for i := 0; i < n && !r.Full(); i++ {
 		arity := rg.Intn(5)
 		// a macro may carry the name of a built-in function or filter: the macro is what the template defined
+		useMore = true
 		mn := pick(rg, []string{"m", "m", "range", "max", "min", "length", "date", "merge", "cycle", "upper", "block", "include"})
 		if err := runSig(arity, rg.Intn(1<<arity), rg.Intn(arity+3), rg.Intn(4), mn); err != nil {
 			return err
